@@ -26,6 +26,7 @@ import (
 	"sort"
 	"strings"
 	"sync"
+	"sync/atomic"
 	"time"
 
 	"google.golang.org/grpc"
@@ -37,6 +38,7 @@ import (
 	pb "github.com/ozontech/seq-db/pkg/storeapi"
 	"github.com/ozontech/seq-db/seq"
 	"github.com/ozontech/seq-db/storeapi"
+	"github.com/ozontech/seq-db/verifhook"
 
 	"verif/harness/internal/casefile"
 	"verif/harness/internal/fracbuild"
@@ -60,11 +62,12 @@ type FracSpec struct {
 }
 
 type Scenario struct {
-	Huge     int        `json:"huge"` // thorough tier: one request of that many IDs
-	Kind     string     `json:"kind"`
-	Fracs    []FracSpec `json:"fracs"`
-	Restart  bool       `json:"restart"`
-	SkipSort bool       `json:"skip_sort_docs"`
+	SameRange bool       `json:"same_range"` // "chunked": all fractions cover the same time range (IDs are routed by hints)
+	Huge      int        `json:"huge"`       // thorough tier: one request of that many IDs
+	Kind      string     `json:"kind"`
+	Fracs     []FracSpec `json:"fracs"`
+	Restart   bool       `json:"restart"`
+	SkipSort  bool       `json:"skip_sort_docs"`
 }
 
 type ReqID struct {
@@ -97,6 +100,7 @@ type bulkReq struct {
 type fetchReq struct {
 	IDs   []ReqID  `json:"ids"`
 	Names []string `json:"names"` // fraction names, index k-1 for hint k
+	Arm   bool     `json:"arm"`   // the active fraction's Fetch panics on entry (schedule point "fetch.start")
 }
 
 type fetchResp struct {
@@ -146,6 +150,7 @@ func genBody(tag uint64, n int) []byte {
 // ------------------------------------------------------------------------------------------ child side
 
 var (
+	childArmed  atomic.Bool
 	childBodies = map[string]uint64{}
 	childGrpc   *storeapi.GrpcV1
 	childAsync  string
@@ -264,6 +269,13 @@ func registerOps() {
 		if err != nil {
 			return storectl.Resp{}, err
 		}
+		verifhook.Set(func(name string) {
+			if name == "fetch.start" && childArmed.Load() {
+				panic("verif: injected panic at fetch.start")
+			}
+		})
+		childArmed.Store(fr.Arm)
+		defer childArmed.Store(false)
 		hintName := func(h int) string {
 			switch {
 			case h == 0:
@@ -428,6 +440,13 @@ func (g *gen) scenario(kind string) Scenario {
 		nfr = r.Range(1, 2)
 	case "large-docs":
 		nfr = r.Range(1, 2)
+	case "chunked": // several fractions, none empty (the last one active), for requests loaded in several chunks
+		nfr = r.Range(3, 4)
+		lastActive = true
+	}
+	chunkedOverlap := r.Bool()
+	if kind == "chunked" {
+		sc.SameRange = chunkedOverlap
 	}
 	var all []DocSpec
 	for fi := 0; fi < nfr; fi++ {
@@ -450,6 +469,15 @@ func (g *gen) scenario(kind string) Scenario {
 			lo = base + uint64(r.Intn(3))*60000
 			hi = lo + uint64(r.Intn(200000))
 		}
+		if kind == "chunked" {
+			if chunkedOverlap {
+				lo = base
+				hi = lo + 60
+			} else {
+				lo = base + uint64(fi*100)
+				hi = lo + 40
+			}
+		}
 		n := r.Range(1, 40)
 		switch kind {
 		case "big":
@@ -460,6 +488,8 @@ func (g *gen) scenario(kind string) Scenario {
 			}
 		case "large-docs":
 			n = r.Range(60, 160)
+		case "chunked":
+			n = r.Range(15, 50)
 		}
 		docs := make([]DocSpec, 0, n)
 		for i := 0; i < n; i++ {
@@ -669,6 +699,73 @@ func (g *gen) requests(sc Scenario, views []fracView, tier string) []request {
 				push(rng.Pick(r, []uint64{1 << 63, ^uint64(0), 1<<63 + uint64(r.Intn(1000000))}), g.rid(), 0)
 			}
 			rng.Shuffle(r, ids)
+		case "by-fraction":
+			// more than one chunk (the first chunk takes 1000 IDs); the first chunk asks only some of the
+			// fractions (stored IDs and absent IDs inside their time range), the rest of the request the others
+			perm := append([]int{}, withDocs...)
+			var first, rest []int
+			if len(perm) >= 3 && !r.Chance(1, 4) {
+				// the first chunk leaves out a fraction in the middle of the list (and of the time span) ...
+				skip := perm[r.Range(1, len(perm)-2)]
+				for _, k := range perm {
+					if k != skip && (k == perm[0] || k == perm[len(perm)-1] || r.Chance(2, 3)) {
+						first = append(first, k)
+					}
+				}
+				rest = []int{skip} // ... and the later chunks ask for it
+				if r.Bool() {
+					rest = append(rest, rng.Pick(r, perm))
+				}
+			} else {
+				rng.Shuffle(r, perm)
+				k1 := r.Range(1, max(1, len(perm)-1))
+				first, rest = perm[:k1], perm[k1:]
+				if len(rest) == 0 || r.Chance(1, 4) {
+					rest = perm
+				}
+			}
+			hinted := sc.SameRange // every ID carries the hint of the fraction it is meant for
+			hintOf := func(k int) int {
+				if hinted {
+					return k + 1
+				}
+				return 0
+			}
+			fill := func(set []int, upto int) {
+				byFr := map[int][]DocSpec{}
+				for _, p := range present {
+					byFr[p.fr-1] = append(byFr[p.fr-1], p.d)
+				}
+				for _, k := range set { // every stored document of these fractions (while there is room)
+					ds := byFr[k]
+					rng.Shuffle(r, ds)
+					for _, d := range ds {
+						if len(ids) < upto {
+							push(d.MID, d.RID, hintOf(k))
+						}
+					}
+				}
+				for i := 0; len(ids) < upto && i < 40*upto; i++ {
+					k := rng.Pick(r, set)
+					v := views[k]
+					m := v.info.From + uint64(r.Intn(int(v.info.To-v.info.From)+1))
+					x := uint64(r.Intn(100000))
+					if !stored[[2]uint64{m, x}] {
+						push(m, x, hintOf(k))
+					}
+				}
+			}
+			n1 := 1000
+			if r.Chance(1, 3) {
+				n1 = r.Range(990, 1010)
+			}
+			fill(first, n1)
+			head := append([]ReqID{}, ids...)
+			rng.Shuffle(r, head)
+			copy(ids, head)
+			fill(rest, n1+r.Range(100, 1200))
+			tail := ids[len(head):]
+			rng.Shuffle(r, tail)
 		case "huge": // up to 100k IDs: everything stored plus absent IDs around the fractions
 			for _, p := range present {
 				push(p.d.MID, p.d.RID, 0)
@@ -749,6 +846,7 @@ func (g *gen) requests(sc Scenario, views []fracView, tier string) []request {
 			return ids[i].RID < ids[j].RID
 		}
 		switch {
+		case kind == "by-fraction":
 		case kind == "mixed-sorted" || r.Chance(1, 5):
 			if r.Bool() {
 				sort.SliceStable(ids, less)
@@ -778,6 +876,11 @@ func (g *gen) requests(sc Scenario, views []fracView, tier string) []request {
 	add("border", 0)
 	if sc.Kind == "recent" {
 		add("mid-above-int64", r.Range(2, 30))
+	}
+	if sc.Kind == "chunked" {
+		for i := 0; i < 3; i++ {
+			add("by-fraction", 0)
+		}
 	}
 	if sc.Huge > 0 {
 		add("huge", sc.Huge)
@@ -1011,14 +1114,30 @@ func runScenario(seed uint64, tier string, idx int, kind string, cs constsResp) 
 			stored[[2]uint64{d.MID, d.RID}] = true
 		}
 	}
-	for ri, rq := range g.requests(sc, views, tier) {
+	type faultSpec struct {
+		panicActive bool
+		damaged     []int // fraction numbers (1-based) whose docs file was cut down
+	}
+	// runs one request; stop = the scenario cannot go on (store process gone)
+	runReq := func(ri int, rq request, fault faultSpec) (stop bool, herr error) {
 		input := map[string]any{"seed": seed, "tier": tier, "scenario": idx, "scenario_kind": sc.Kind, "request": ri,
 			"restart": sc.Restart, "skip_sort_docs": sc.SkipSort, "fractions": sums, "ids": rq.ids}
 		if ndocs <= 120 {
 			input["corpus"] = sc.Fracs
 		}
-		resp, ferr := call[fetchResp](st, "c04fetch", fetchReq{IDs: rq.ids, Names: names})
-		res := result{class: rq.kind, input: input}
+		ctor := "CFetch " + cfg + " frs"
+		class := rq.kind
+		isFault := fault.panicActive || len(fault.damaged) > 0
+		if isFault {
+			input["fault"] = map[string]any{"active_fetch_panics": fault.panicActive, "damaged_docs_file_of_fraction": fault.damaged}
+			ctor = fmt.Sprintf("CFault %s frs %s %s", cfg, casefile.Bool(fault.panicActive), strings.TrimSuffix(casefile.NList(fault.damaged), "%N"))
+			class = "fault-active-panic"
+			if len(fault.damaged) > 0 {
+				class = "fault-damaged-docs"
+			}
+		}
+		resp, ferr := call[fetchResp](st, "c04fetch", fetchReq{IDs: rq.ids, Names: names, Arm: fault.panicActive})
+		res := result{class: class, input: input}
 		npres := 0
 		for _, x := range rq.ids {
 			if stored[[2]uint64{x.MID, x.RID}] {
@@ -1029,7 +1148,7 @@ func runScenario(seed uint64, tier string, idx int, kind string, cs constsResp) 
 			fmt.Sprintf("present-share:%s", share(npres, len(rq.ids))))
 		if ferr != nil {
 			if !errors.Is(ferr, storectl.ErrDied) {
-				return scenarioOut{err: fmt.Errorf("fetch: %w", ferr)}
+				return true, fmt.Errorf("fetch: %w", ferr)
 			}
 			// the store process died (or hung and was killed) while serving the request
 			msg := ferr.Error()
@@ -1038,11 +1157,11 @@ func runScenario(seed uint64, tier string, idx int, kind string, cs constsResp) 
 			} else if len(msg) > 300 {
 				msg = msg[:300]
 			}
-			res.coq = fmt.Sprintf("CFetch %s frs\n   %s\n   SCrash None", cfg, coqIDs(rq.ids))
+			res.coq = fmt.Sprintf("%s\n   %s\n   SCrash None", ctor, coqIDs(rq.ids))
 			res.impl = map[string]any{"store_process_died": msg}
 			res.nontrivial = true
 			out.results = append(out.results, res)
-			return out // the scenario's store is gone
+			return true, nil // the scenario's store is gone
 		}
 		status := "SOk"
 		if resp.Err != "" {
@@ -1063,7 +1182,7 @@ func runScenario(seed uint64, tier string, idx int, kind string, cs constsResp) 
 			})
 			res.pre = p1 + p2
 		}
-		res.coq = fmt.Sprintf("CFetch %s frs\n   %s\n   (%s %s) (Some %s)", cfg, idsTerm, status,
+		res.coq = fmt.Sprintf("%s\n   %s\n   (%s %s) (Some %s)", ctor, idsTerm, status,
 			sentTerm, strings.TrimSuffix(casefile.NList(lens), "%N"))
 		found := 0
 		for _, e := range resp.Sent {
@@ -1073,11 +1192,83 @@ func runScenario(seed uint64, tier string, idx int, kind string, cs constsResp) 
 		}
 		res.impl = map[string]any{"status": status, "err": resp.Err, "blocks": len(resp.Sent), "found": found,
 			"batch_lens": resp.Lens, "batches_err": resp.LensErr, "sent_head": head(resp.Sent, 40)}
-		res.nontrivial = (npres > 0 && npres < len(rq.ids)) || len(resp.Lens) > 1
+		res.nontrivial = (npres > 0 && npres < len(rq.ids)) || len(resp.Lens) > 1 || (isFault && status == "SErr")
 		if len(resp.Lens) > 1 {
 			res.counts = append(res.counts, "batches>1")
 		}
 		out.results = append(out.results, res)
+		return false, nil
+	}
+	reqs := g.requests(sc, views, tier)
+	for ri, rq := range reqs {
+		if stop, herr := runReq(ri, rq, faultSpec{}); herr != nil {
+			return scenarioOut{err: herr}
+		} else if stop {
+			return out
+		}
+	}
+	// fault injection 1: the active fraction's Fetch panics on entry; the request must end with an error
+	lastView := views[len(views)-1]
+	if len(lastView.docs) > 0 && !lastView.info.Sealed {
+		n := 0
+		for ri, rq := range reqs {
+			if len(rq.ids) > 400 && rq.kind != "by-fraction" || n >= 3 {
+				continue
+			}
+			if rq.kind == "by-fraction" && n >= 1 {
+				continue
+			}
+			n++
+			if stop, herr := runReq(1000+ri, rq, faultSpec{panicActive: true}); herr != nil {
+				return scenarioOut{err: herr}
+			} else if stop {
+				return out
+			}
+		}
+	}
+	// fault injection 2: the docs file of one sealed fraction is cut down while the store is stopped
+	var sealedIdx []int
+	for k, v := range views {
+		if v.info.Sealed && len(v.docs) > 0 {
+			sealedIdx = append(sealedIdx, k)
+		}
+	}
+	if len(sealedIdx) > 0 && idx%3 == 0 && sc.Kind != "big" && sc.Kind != "large-docs" {
+		k := rng.Pick(g.r, sealedIdx)
+		st.Close()
+		matches, _ := filepath.Glob(filepath.Join(data, views[k].info.Name+".*docs"))
+		if len(matches) != 1 {
+			return scenarioOut{err: fmt.Errorf("harness: docs file of %s: %v", views[k].info.Name, matches)}
+		}
+		if err := os.Truncate(matches[0], 7); err != nil {
+			return scenarioOut{err: err}
+		}
+		if st, err = storectl.Start(""); err != nil {
+			return scenarioOut{err: err}
+		}
+		st.Timeout = 90 * time.Second
+		if err := open(); err != nil {
+			return scenarioOut{err: fmt.Errorf("reopen after damage: %w", err)}
+		}
+		for _, f := range sc.Fracs {
+			for _, b := range f.Bulks {
+				if _, err := call[struct{}](st, "c04bulk", bulkReq{Docs: b, RegisterOnly: true}); err != nil {
+					return scenarioOut{err: err}
+				}
+			}
+		}
+		n := 0
+		for ri, rq := range reqs {
+			if len(rq.ids) > 300 || n >= 3 {
+				continue
+			}
+			n++
+			if stop, herr := runReq(2000+ri, rq, faultSpec{damaged: []int{k + 1}}); herr != nil {
+				return scenarioOut{err: herr}
+			} else if stop {
+				return out
+			}
+		}
 	}
 	return out
 }
@@ -1246,9 +1437,9 @@ func main() {
 
 	// scenario plan
 	var kinds []string
-	nsmall, nbig, nlarge, nrecent := 36, 2, 2, 2
+	nsmall, nbig, nlarge, nrecent, nchunked := 32, 2, 2, 2, 3
 	if *tier == "thorough" {
-		nsmall, nbig, nlarge, nrecent = 220, 12, 8, 8
+		nsmall, nbig, nlarge, nrecent, nchunked = 220, 12, 8, 8, 20
 	}
 	for i := 0; i < nsmall; i++ {
 		if i%6 == 5 {
@@ -1265,6 +1456,9 @@ func main() {
 	}
 	for i := 0; i < nrecent; i++ {
 		kinds = append(kinds, "recent")
+	}
+	for i := 0; i < nchunked; i++ {
+		kinds = append(kinds, "chunked")
 	}
 	outs := make([]scenarioOut, len(kinds))
 	var wg sync.WaitGroup
